@@ -151,6 +151,15 @@ CLAIMS = {
              'forwards; any new override of a RequestBound method is flagged as unreviewed. Not decided: numeric relations '
              'for given models.',
         ref='7/C16'),
+    'C17': dict(
+        technique='variance (monotonicity) type system over canonical terms + non-interference of the limit parameter',
+        text='Every closure that reaches fixed_point::search* in the nine dedicated-processor analyses and the ROS 2 analyses is '
+             'typed non-decreasing in the fixed-point variable, in every service_needed / number_arrivals / cost_of_jobs term, '
+             'in blocking bounds, assumed response-time bounds and the polling-point bound; sums over task / callback sets have '
+             'non-negative summands; the limit parameter reaches only the divergence-limit argument of search* (LIM-NI) and '
+             'errors are never swallowed (ERR). A provably decreasing dependence (also on one arm of a kind match) is a '
+             'violation; undecided variances are listed, not passed. Not decided: monotonicity of the numeric results.',
+        ref='7/C17'),
 }
 
 NOT_YET = 'clauses designed in DESIGN.md section 7 but not yet implemented in this commit'
